@@ -16,6 +16,10 @@ import itertools
 import math
 
 
+def rclose(a, b, tol=1e-12):
+    return abs(a - b) <= tol * max(abs(a), abs(b))
+
+
 def close(a, b, tol=1e-9):
     return abs(a - b) <= tol * (1 + abs(a) + abs(b))
 
@@ -129,6 +133,35 @@ def main(tier):
             v = U._find_unit(s) if s is not None else None
             if s is not None and (v is None or list(v._powers) != pw or not close(v._factor, fac, 1e-10)):
                 fail('composite-simplify', expr=expr, simplified=s)
+    # N numeric coefficients inside unit expressions (many significant digits, exponents, powers of a scaled unit)
+    coeffs = ['0.45359237', '1.0000001', '3.14159265358979', '1e-7', '2.5e+6', '0.3048', '1852', '101325.0', '6.02214076e+23', '1.602176634e-19', '0.000123456789012']
+    for cf, a in itertools.product(coeffs, plain[:8]):
+        cv = float(cf)
+        for expr, fac, pw in (('%s*%s' % (cf, a), cv * units[a]._factor, list(units[a]._powers)),
+                              ('%s/%s' % (a, cf), units[a]._factor / cv, list(units[a]._powers)),
+                              ('(%s*%s)**2' % (cf, a), (cv * units[a]._factor) ** 2, [2 * q for q in units[a]._powers]),
+                              ('%s*%s/s' % (cf, a), cv * units[a]._factor / units['s']._factor, [q - r for q, r in zip(units[a]._powers, units['s']._powers)])):
+            ev += 1
+            try:
+                u = U._find_unit(expr)
+            except Exception as e:
+                fail('coefficient-parse', expr=expr, error=repr(e))
+                continue
+            if u is None:
+                fail('coefficient-unknown', expr=expr)
+                continue
+            nontrivial.add(('coef', expr))
+            if list(u._powers) != pw or not rclose(u._factor, fac):
+                fail('coefficient-factor', expr=expr, factor=u._factor, expected=fac)
+                continue
+            try:
+                sname = U.simplify_unit(expr)
+                v = U._find_unit(sname) if sname is not None else None
+            except Exception as e:
+                fail('coefficient-simplify-raises', expr=expr, error=repr(e))
+                continue
+            if sname is not None and (v is None or list(v._powers) != pw or not rclose(v._factor, fac)):
+                fail('coefficient-simplify', expr=expr, simplified=sname, factor=None if v is None else v._factor, expected=fac)
     # prefixes (thorough)
     if tier != 'quick':
         prefixes = ['k', 'm', 'c', 'M', 'G', 'u', 'n', 'p', 'd', 'h', 'da', 'T', 'f', 'a']
